@@ -993,6 +993,49 @@ impl Family for Castle2 {
     }
 }
 
+/// KINGRING: the white king on every interior square with each of its eight neighbours empty or
+/// occupied by an own pawn / knight or an enemy queen / rook / bishop / knight (7^8 rings per
+/// square), the black king in the far corner; White to move. Crowded kings: contact checks, pieces
+/// that shield, fully occupied rings.
+pub struct KingRing;
+impl Family for KingRing {
+    fn name(&self) -> String {
+        "KINGRING".into()
+    }
+    fn len(&self) -> u64 {
+        36 * 7u64.pow(8)
+    }
+    fn decode(&self, mut i: u64) -> Option<Pos> {
+        let ks = (i % 36) as i8;
+        i /= 36;
+        let (kf, kr) = (1 + ks % 6, 1 + ks / 6);
+        let mut p = Pos::empty();
+        p.board[sq_at(kf, kr)? as usize] = pc(WHITE, KING);
+        let opts = [EMPTY, pc(WHITE, PAWN), pc(WHITE, KNIGHT), pc(BLACK, QUEEN), pc(BLACK, ROOK), pc(BLACK, BISHOP), pc(BLACK, KNIGHT)];
+        for (df, dr) in [(-1i8, -1i8), (0, -1), (1, -1), (-1, 0), (1, 0), (-1, 1), (0, 1), (1, 1)] {
+            let o = opts[(i % 7) as usize];
+            i /= 7;
+            let sq = sq_at(kf + df, kr + dr)?;
+            if o == pc(WHITE, PAWN) && (row_of(sq) == 0 || row_of(sq) == 7) {
+                return None;
+            }
+            p.board[sq as usize] = o;
+        }
+        // the black king as far away as possible
+        let bk = sq_at(if kf <= 3 { 7 } else { 0 }, if kr <= 3 { 7 } else { 0 })?;
+        if p.board[bk as usize] != EMPTY {
+            return None;
+        }
+        p.board[bk as usize] = pc(BLACK, KING);
+        p.stm = WHITE;
+        if p.is_legal_position() {
+            Some(p)
+        } else {
+            None
+        }
+    }
+}
+
 /// PAWN7: a white pawn on its 7th rank (every file), both kings, one further white piece and one
 /// black piece (every pair of kinds from Q R B N) anywhere, both sides to move: promotions and
 /// under-promotions with something to lose or to win on the way.
